@@ -194,7 +194,7 @@ type urlCase struct {
 
 func urlCases(thorough bool) []urlCase {
 	schemes := []string{"file", "FILE", "fIlE"}
-	users := []string{"", "u@", "u:p@"}
+	users := []string{"", "u@", "u:p@", "@", ":@", ":p@"} // incl. user info with an empty user name
 	hosts := []string{"", "localhost", "example.com", "127.0.0.1"}
 	ports := []string{"", ":80"}
 	paths := [][2]string{{"/abs/p", "abs/p"}, {"/with%20esc", "with esc"}, {"/p/../q", "q"}}
